@@ -45,6 +45,16 @@ class CW:
             self._paths[fname] = self.ex.paths(self.prog.body(fname))
         return self._paths[fname]
 
+    def paths2(self, fname):
+        """paths with every loop unrolled twice: shows what a retry iteration does with values decided in
+        the previous one (small functions only)"""
+        key = ("u2", fname)
+        if key not in self._paths:
+            if not hasattr(self, "ex2"):
+                self.ex2 = Exec(self.prog, unroll=2)
+            self._paths[key] = self.ex2.paths(self.prog.body(fname))
+        return self._paths[key]
+
     # ---------------------------------------------------------------- raw MIR scan of accesses
     def scan_accesses(self):
         """Every place in the crate where the address of RcInner.state is taken, and what is done
@@ -293,6 +303,14 @@ class CW:
                     elif b == "with_epoch":
                         site["stamp"] = arg
                 site["outcome"] = self.cas_outcome(path, e.result, i)
+                out.append(site)
+                if site["outcome"] == "err":
+                    # a failed CAS is also an observation: its Err payload is the current word
+                    payload = ("field", "0", ("variant", "Err", e.result))
+                    out.append({"op": "cas-observe", "obj": obj, "idx": i, "event": e, "delta": {}, "sets": {}, "stamp": None,
+                                "outcome": "ok", "kind": "load", "chain": [],
+                                "observed": ("call", ST + "from_raw", (payload,), None)})
+                continue
             else:
                 raise AnalysisError("%s: unclassifiable atomic op `%s` on the count word" % (path.body.name, op))
             out.append(site)
